@@ -209,48 +209,7 @@ func checkC04(c *Check) {
 	c.Expect("O2/no-new-privs", 4)
 
 	// ---- O3 seccomp iff given
-	x.iffExactlyOne("O3/seccomp", "seccomp(SET_MODE_FILTER)", fNot(secNil), S, "the seccomp filter load")
-	for _, e := range S {
-		op, ok0 := e.argInt(0)
-		fl, ok1 := e.argInt(1)
-		c.Cond(ok0 && op == 1 && ok1 && fl&1 == 1, "O3/seccomp", "args:"+e.Site, x.pos(e), "seccomp(SECCOMP_SET_MODE_FILTER, TSYNC, …)",
-			fmt.Sprintf("seccomp operation/flags are (%s, %s), want (1, ⊇TSYNC)", e.argDesc(0), e.argDesc(1)))
-		c.Cond(e.argDesc(2) == r.R+".Seccomp", "O3/seccomp", "filter:"+e.Site, x.pos(e), "filter argument is the caller's Seccomp program",
-			"filter argument is "+e.argDesc(2)+", not "+r.R+".Seccomp")
-	}
-	x.ordered("O3/seccomp", "seccomp<exec", S, execs, "seccomp load", "exec")
-	sigstop := p.Sys("SIGSTOP")
-	stops := x.sel("kill", func(e *e1Event) bool { v, ok := e.argInt(1); return ok && v == sigstop })
-	traceme := x.sel("ptrace", func(e *e1Event) bool { v, ok := e.argInt(0); return ok && v == p.Sys("PTRACE_TRACEME") })
-	// with Ptrace and a filter: TRACEME < SIGSTOP < seccomp load
-	x.iffExactlyOne("O3/seccomp", "ptrace(TRACEME)", ptrace, traceme, "ptrace(PTRACE_TRACEME)")
-	x.iffExactlyOne("O3/seccomp", "kill(self,SIGSTOP)", fOr(r.A("StopBeforeSeccomp"), fAnd(fNot(secNil), ptrace)), stops, "the self-SIGSTOP before the filter")
-	for _, s := range S {
-		// if Ptrace ∧ filter: some stop and traceme must precede s whenever s executes
-		for _, grp := range []struct {
-			evs  []*e1Event
-			what string
-		}{{stops, "kill(self,SIGSTOP)"}, {traceme, "PTRACE_TRACEME"}} {
-			var pre []*Form
-			for _, e := range grp.evs {
-				if before(e.Call, s.Call) {
-					pre = append(pre, e.Guard)
-				}
-			}
-			x.valid("O3/seccomp", grp.what+"<"+s.Site, x.pos(s), fImp(fAnd(s.Guard, ptrace), anyOf(pre)),
-				"with ptrace, "+grp.what+" precedes the filter load "+s.Site, "with ptrace, the filter load "+s.Site+" is not preceded by "+grp.what)
-		}
-	}
-	for _, st := range stops {
-		var pre []*Form
-		for _, e := range traceme {
-			if before(e.Call, st.Call) {
-				pre = append(pre, e.Guard)
-			}
-		}
-		x.valid("O3/seccomp", "TRACEME<"+st.Site, x.pos(st), fImp(fAnd(st.Guard, ptrace, fNot(secNil)), anyOf(pre)),
-			"with ptrace+filter, PTRACE_TRACEME precedes the self-stop", "with ptrace+filter, the self-stop is not preceded by PTRACE_TRACEME")
-	}
+	e1SeccompObligations(x, "O3/seccomp")
 	c.Expect("O3/seccomp", 10)
 
 	// ---- O4 identity
@@ -749,4 +708,56 @@ func checkRunnerLiterals(c *Check) {
 		}
 		c.Cond(okGuard, "O10/callers", "pkg/seccomp.SockFprog:empty-filter", p.Pos(fn.Pos()), "element 0 is taken only of a non-empty filter", "SockFprog indexes element 0 without a length guard (panics when no filter is configured)")
 	}
+}
+
+// e1SeccompObligations: seccomp load exactly once iff a filter is given, with the right
+// arguments, before exec; with ptrace: TRACEME < self-SIGSTOP < filter load.
+func e1SeccompObligations(x *e1ctx, rule string) {
+	c, r, p := x.c, x.r, x.c.P
+	secNil, ptrace := r.NilF("Seccomp"), r.A("Ptrace")
+	S := x.sel("seccomp", nil)
+	execs := x.execEvents()
+	x.iffExactlyOne(rule, "seccomp(SET_MODE_FILTER)", fNot(secNil), S, "the seccomp filter load")
+	for _, e := range S {
+		op, ok0 := e.argInt(0)
+		fl, ok1 := e.argInt(1)
+		c.Cond(ok0 && op == 1 && ok1 && fl&1 == 1, rule, "args:"+e.Site, x.pos(e), "seccomp(SECCOMP_SET_MODE_FILTER, TSYNC, …)",
+			fmt.Sprintf("seccomp operation/flags are (%s, %s), want (1, ⊇TSYNC)", e.argDesc(0), e.argDesc(1)))
+		c.Cond(e.argDesc(2) == r.R+".Seccomp", rule, "filter:"+e.Site, x.pos(e), "filter argument is the caller's Seccomp program",
+			"filter argument is "+e.argDesc(2)+", not "+r.R+".Seccomp")
+	}
+	x.ordered(rule, "seccomp<exec", S, execs, "seccomp load", "exec")
+	sigstop := p.Sys("SIGSTOP")
+	stops := x.sel("kill", func(e *e1Event) bool { v, ok := e.argInt(1); return ok && v == sigstop })
+	traceme := x.sel("ptrace", func(e *e1Event) bool { v, ok := e.argInt(0); return ok && v == p.Sys("PTRACE_TRACEME") })
+	// with Ptrace and a filter: TRACEME < SIGSTOP < seccomp load
+	x.iffExactlyOne(rule, "ptrace(TRACEME)", ptrace, traceme, "ptrace(PTRACE_TRACEME)")
+	x.iffExactlyOne(rule, "kill(self,SIGSTOP)", fOr(r.A("StopBeforeSeccomp"), fAnd(fNot(secNil), ptrace)), stops, "the self-SIGSTOP before the filter")
+	for _, s := range S {
+		// if Ptrace ∧ filter: some stop and traceme must precede s whenever s executes
+		for _, grp := range []struct {
+			evs  []*e1Event
+			what string
+		}{{stops, "kill(self,SIGSTOP)"}, {traceme, "PTRACE_TRACEME"}} {
+			var pre []*Form
+			for _, e := range grp.evs {
+				if before(e.Call, s.Call) {
+					pre = append(pre, e.Guard)
+				}
+			}
+			x.valid(rule, grp.what+"<"+s.Site, x.pos(s), fImp(fAnd(s.Guard, ptrace), anyOf(pre)),
+				"with ptrace, "+grp.what+" precedes the filter load "+s.Site, "with ptrace, the filter load "+s.Site+" is not preceded by "+grp.what)
+		}
+	}
+	for _, st := range stops {
+		var pre []*Form
+		for _, e := range traceme {
+			if before(e.Call, st.Call) {
+				pre = append(pre, e.Guard)
+			}
+		}
+		x.valid(rule, "TRACEME<"+st.Site, x.pos(st), fImp(fAnd(st.Guard, ptrace, fNot(secNil)), anyOf(pre)),
+			"with ptrace+filter, PTRACE_TRACEME precedes the self-stop", "with ptrace+filter, the self-stop is not preceded by PTRACE_TRACEME")
+	}
+
 }
